@@ -212,7 +212,7 @@ func (s *Script) assert(t Term) {
 	if t == "true" {
 		return
 	}
-	if strings.Contains(t, "q!") && !strings.Contains(t, "(forall ((q!") && !strings.Contains(t, "(exists ((q!") {
+	if strings.Contains(t, "qbv$") && !strings.Contains(t, "(forall ((qbv$") && !strings.Contains(t, "(exists ((qbv$") {
 		// a side fact about a term that mentions a bound variable of a specification quantifier: it cannot
 		// be stated at top level; dropping it only weakens what the solver knows
 		return
@@ -257,9 +257,15 @@ func sidx(off, i Term) Term {
 	return app("sidx", off, i)
 }
 
-func (s *Script) render(goal Term, withModel bool) string {
+// render writes the script of one obligation: all declarations, the first n assertions (the facts established
+// before the obligation was generated -- never the "execution continues only if the check passed" facts that
+// follow it) and the negated goal. n < 0 means all assertions.
+func (s *Script) render(goal Term, withModel bool, n int) string {
 	if s.raw != "" {
 		return s.raw
+	}
+	if n < 0 || n > len(s.asserts) {
+		n = len(s.asserts)
 	}
 	var b strings.Builder
 	b.WriteString("(set-option :produce-models true)\n(set-logic ALL)\n")
@@ -268,7 +274,7 @@ func (s *Script) render(goal Term, withModel bool) string {
 		b.WriteString(s.decls[n])
 		b.WriteByte('\n')
 	}
-	for i, a := range s.asserts {
+	for i, a := range s.asserts[:n] {
 		if c, ok := s.comments[i]; ok {
 			b.WriteString("; " + c + "\n")
 		}
